@@ -122,6 +122,9 @@ void checkList(const std::vector<std::string> &values, const std::vector<std::st
 void body(V::Ctx &ctx)
 {
     Mem::Init();
+    // squid.conf default "configuration_includes_quoted_values off" (default_all() sets both before parsing starts)
+    ConfigParser::RecognizeQuotedValues = false;
+    ConfigParser::StrictMode = false;
 
     std::vector<std::string> pool = {"a.b", ".a.b", "b", ".b", "x.a.b", "A.B", ".x.a.b", "ab", "x-a.b", ".ab", "y.a.b", ".c"};
     if (ctx.thorough()) {
